@@ -5,6 +5,7 @@ package verifsim
 // only the lifecycle glue (ServiceManager, real listener) is replaced.
 
 import (
+	"net/url"
 	"context"
 	"fmt"
 	"io"
@@ -73,6 +74,7 @@ type StatRec struct {
 
 type Recorder struct {
 	sim          *Sim
+	nameByHost   map[string]string // host:port -> the simulator's own name for the endpoint (configured names may repeat)
 	mu           sync.Mutex
 	Repo         []RepoWrite
 	RepoLost     []RepoWrite      // writes that were refused, or accepted without taking effect
@@ -165,7 +167,7 @@ func (r *recRepo) UpdateEndpoint(ctx context.Context, ep *domain.Endpoint) error
 	err := r.EndpointRepository.UpdateEndpoint(ctx, ep)
 	// the log records what the repository holds after the call, not what the caller asked for: a write
 	// that is refused or silently dropped must not look like a state change to the oracles
-	w := RepoWrite{Step: r.rec.sim.Steps(), At: r.rec.sim.Now(), Who: r.who, Name: ep.Name, URL: ep.URL.String(),
+	w := RepoWrite{Step: r.rec.sim.Steps(), At: r.rec.sim.Now(), Who: r.who, Name: r.rec.nm(ep), URL: ep.URL.String(),
 		Status: ep.Status.String(), Fails: ep.ConsecutiveFailures, Mult: ep.BackoffMultiplier, NextIn: ep.NextCheckTime.Sub(ep.LastChecked),
 		Routable: ep.Status.IsRoutable(), Prev: prev, Asked: ep.Status.String()}
 	all, gerr := r.EndpointRepository.GetAll(context.Background())
@@ -213,16 +215,34 @@ type recSelector struct {
 	rec *Recorder
 }
 
+// nm is the simulator's name for an endpoint: the configured name unless the plan gives several endpoints
+// the same configured name, in which case the host tells them apart.
+func (r *Recorder) nm(ep *domain.Endpoint) string {
+	if ep == nil {
+		return ""
+	}
+	host := ""
+	if ep.URL != nil {
+		host = ep.URL.Host
+	} else if u, err := url.Parse(ep.URLString); err == nil {
+		host = u.Host
+	}
+	if n, ok := r.nameByHost[host]; ok {
+		return n
+	}
+	return ep.Name
+}
+
 func (s *recSelector) Select(ctx context.Context, eps []*domain.Endpoint) (*domain.Endpoint, error) {
 	ep, err := s.EndpointSelector.Select(ctx, eps)
 	c := SelCall{Step: s.rec.sim.Steps(), At: s.rec.sim.Now(), Op: "select"}
 	for _, e := range eps {
-		c.Cand = append(c.Cand, e.Name+"="+e.Status.String())
+		c.Cand = append(c.Cand, s.rec.nm(e)+"="+e.Status.String())
 	}
 	if err != nil {
 		c.Err = err.Error()
 	} else if ep != nil {
-		c.Name, c.URL = ep.Name, ep.URLString
+		c.Name, c.URL = s.rec.nm(ep), ep.URLString
 	}
 	s.rec.mu.Lock()
 	s.rec.Sel = append(s.rec.Sel, c)
@@ -235,7 +255,7 @@ func (s *recSelector) Select(ctx context.Context, eps []*domain.Endpoint) (*doma
 // the gauge may or may not reflect it yet.
 func (s *recSelector) IncrementConnections(ep *domain.Endpoint) {
 	s.rec.mu.Lock()
-	s.rec.Sel = append(s.rec.Sel, SelCall{Step: s.rec.sim.Steps(), At: s.rec.sim.Now(), Op: "inc", Name: ep.Name, URL: ep.URLString})
+	s.rec.Sel = append(s.rec.Sel, SelCall{Step: s.rec.sim.Steps(), At: s.rec.sim.Now(), Op: "inc", Name: s.rec.nm(ep), URL: ep.URLString})
 	s.rec.pending("inc", ep.URLString, +1)
 	s.rec.mu.Unlock()
 	s.EndpointSelector.IncrementConnections(ep)
@@ -245,7 +265,7 @@ func (s *recSelector) IncrementConnections(ep *domain.Endpoint) {
 }
 func (s *recSelector) DecrementConnections(ep *domain.Endpoint) {
 	s.rec.mu.Lock()
-	s.rec.Sel = append(s.rec.Sel, SelCall{Step: s.rec.sim.Steps(), At: s.rec.sim.Now(), Op: "dec", Name: ep.Name, URL: ep.URLString})
+	s.rec.Sel = append(s.rec.Sel, SelCall{Step: s.rec.sim.Steps(), At: s.rec.sim.Now(), Op: "dec", Name: s.rec.nm(ep), URL: ep.URLString})
 	s.rec.pending("dec", ep.URLString, +1)
 	s.rec.mu.Unlock()
 	s.EndpointSelector.DecrementConnections(ep)
@@ -270,7 +290,7 @@ type recStats struct {
 func (s *recStats) RecordRequest(ep *domain.Endpoint, status string, latency time.Duration, bytes int64) {
 	r := StatRec{Step: s.rec.sim.Steps(), At: s.rec.sim.Now(), Kind: "request", Status: status, Bytes: bytes}
 	if ep != nil {
-		r.Name, r.URL = ep.Name, ep.URLString
+		r.Name, r.URL = s.rec.nm(ep), ep.URLString
 	}
 	s.rec.mu.Lock()
 	s.rec.Stats = append(s.rec.Stats, r)
@@ -280,7 +300,7 @@ func (s *recStats) RecordRequest(ep *domain.Endpoint, status string, latency tim
 func (s *recStats) RecordConnection(ep *domain.Endpoint, delta int) {
 	r := StatRec{Step: s.rec.sim.Steps(), At: s.rec.sim.Now(), Kind: "conn", Delta: delta}
 	if ep != nil {
-		r.Name, r.URL = ep.Name, ep.URLString
+		r.Name, r.URL = s.rec.nm(ep), ep.URLString
 	}
 	s.rec.mu.Lock()
 	s.rec.Stats = append(s.rec.Stats, r)
@@ -386,7 +406,7 @@ func BuildConfig(p *Plan) *config.Config {
 	var eps []config.EndpointConfig
 	for _, e := range p.Endpoints {
 		ec := config.EndpointConfig{
-			URL: "http://" + e.Host + e.BasePath, Name: e.Name, Type: e.Type, Priority: intp(e.Priority),
+			URL: "http://" + e.Host + e.BasePath, Name: e.cfgName(), Type: e.Type, Priority: intp(e.Priority),
 			CheckInterval: e.CheckInterval, CheckTimeout: e.CheckTimeout, PreservePath: e.PreservePath,
 		}
 		if len(e.Include) > 0 || len(e.Exclude) > 0 {
@@ -400,7 +420,10 @@ func BuildConfig(p *Plan) *config.Config {
 
 // BuildStack assembles and boots the stack inside the current bubble.
 func BuildStack(s *Sim, p *Plan) (*Stack, error) {
-	st := &Stack{Sim: s, Rec: &Recorder{sim: s}, Log: quietLogger()}
+	st := &Stack{Sim: s, Rec: &Recorder{sim: s, nameByHost: map[string]string{}}, Log: quietLogger()}
+	for _, e := range p.Endpoints {
+		st.Rec.nameByHost[e.Host] = e.Name
+	}
 	st.ctx, st.cancel = context.WithCancel(context.Background())
 	cfg := BuildConfig(p)
 	st.Cfg = cfg
@@ -447,7 +470,7 @@ func BuildStack(s *Sim, p *Plan) (*Stack, error) {
 		for _, ep := range all {
 			ep.Status = domain.StatusHealthy
 			for _, ec := range p.Endpoints {
-				if ec.Name == ep.Name && ec.InitialStatus != "" {
+				if ec.Name == st.Rec.nm(ep) && ec.InitialStatus != "" {
 					ep.Status = domain.EndpointStatus(ec.InitialStatus)
 				}
 			}
@@ -478,11 +501,11 @@ func BuildStack(s *Sim, p *Plan) (*Stack, error) {
 		rec := st.Rec
 		st.HC.SetRecoveryCallback(health.RecoveryCallbackFunc(func(ctx context.Context, ep *domain.Endpoint) error {
 			rec.mu.Lock()
-			rec.Recov = append(rec.Recov, RepoWrite{Step: s.Steps(), At: s.Now(), Name: ep.Name, URL: ep.URL.String()})
+			rec.Recov = append(rec.Recov, RepoWrite{Step: s.Steps(), At: s.Now(), Name: rec.nm(ep), URL: ep.URL.String()})
 			rec.mu.Unlock()
 			err := md.DiscoverEndpoint(ctx, ep)
 			// how the re-discovery ended, and whether the context it was given had been cancelled by then
-			done := RepoWrite{Step: s.Steps(), At: s.Now(), Name: ep.Name, URL: ep.URL.String()}
+			done := RepoWrite{Step: s.Steps(), At: s.Now(), Name: rec.nm(ep), URL: ep.URL.String()}
 			if err != nil {
 				done.Err = err.Error()
 			}
@@ -498,7 +521,7 @@ func BuildStack(s *Sim, p *Plan) (*Stack, error) {
 		rec := st.Rec
 		st.HC.SetRecoveryCallback(health.RecoveryCallbackFunc(func(ctx context.Context, ep *domain.Endpoint) error {
 			rec.mu.Lock()
-			rec.Recov = append(rec.Recov, RepoWrite{Step: s.Steps(), At: s.Now(), Name: ep.Name, URL: ep.URL.String()})
+			rec.Recov = append(rec.Recov, RepoWrite{Step: s.Steps(), At: s.Now(), Name: rec.nm(ep), URL: ep.URL.String()})
 			rec.mu.Unlock()
 			return nil
 		}))
@@ -563,7 +586,7 @@ func (st *Stack) Boot(p *Plan) {
 		all, _ := st.Repo.GetAll(st.ctx)
 		for _, ec := range p.Endpoints {
 			for _, ep := range all {
-				if ep.Name != ec.Name {
+				if st.Rec.nm(ep) != ec.Name {
 					continue
 				}
 				var ms []*domain.ModelInfo
